@@ -717,10 +717,10 @@ func c07containerTree(x *mc.X) {
 		x.Failf("C07/container/target-survives-refused-launch", "sync after exec, tree %s (%s): %d processes of the refused target are still running 5 s after Execve returned the refusal: %v", shape, ready, len(left), left)
 	}
 	// the environment must still serve the next call
-	if err := c.Ping(); err != nil {
+	if err := envUsable(c); err != nil {
 		c09pool.drop()
 		if gone {
-			x.Failf("C07/container/unusable-after-refused-launch", "tree %s: Ping after the refused launch: %v", shape, err)
+			x.Failf("C07/container/unusable-after-refused-launch", "tree %s: the next request after the refused launch: %v", shape, err)
 		}
 	}
 	x.Distinct(fmt.Sprint("ct", shape, res.Status, gone))
